@@ -37,6 +37,7 @@ MIN_REACH = {
     "figures_judged": {"quick": 300, "thorough": 5000},
     "series_compared": {"quick": 1200, "thorough": 20000},
     "colors_compared": {"quick": 500, "thorough": 8000},
+    "scatter_colors_compared_on_a_log_scale": {"quick": 40, "thorough": 600},
     "panels_compared": {"quick": 150, "thorough": 2500},
     "hist_series_compared": {"quick": 80, "thorough": 1200},
     "heatmap_cells_compared": {"quick": 500, "thorough": 8000},
@@ -118,6 +119,9 @@ def cases(ctx):
             if c["dseed"] % 3 == 0 and not o.get("xlog"):       # (a log axis cannot show the negative limit)
                 # explicit axis limits narrower than the data: they set the view, not what is binned
                 o["xlims"] = (-0.5, 0.75)
+        if kind in ("scatter", "scatter_grid") and c["dseed"] % 3 == 0 and (c["dseed"] // 3) % 3 == 1:
+            # points coloured by a separate quantity on a logarithmic colour scale
+            o["colormap_log"] = True
         # the colour-mapped quantity starts at exactly 0 (count-like data), and explicit colour limits incl. 0
         c["zero_floor"] = rng.random() < 0.3
         c["dup_z"] = rng.random() < 0.15
@@ -402,6 +406,8 @@ def judge_line_axes(ctx, ax, ds, case, o, xname, ynames, zvals, kind, labels, wa
                     drawn = art.to_rgba(np.asarray(arr, dtype=float))
                     wanted = cm_(gnorm(np.asarray(arr, dtype=float)))
                     ctx.count("colors_compared", len(arr))
+                    if o.get("colormap_log"):
+                        ctx.count("scatter_colors_compared_on_a_log_scale", len(arr))
                     if not np.allclose(drawn[:, :3], wanted[:, :3], atol=2e-3):
                         bad.append("series %d: points are coloured with a normalisation of their own (%.4g..%.4g) instead of the plot-wide one (%.4g..%.4g) shown by the colour bar" % (
                             i, art.norm.vmin, art.norm.vmax, gnorm.vmin, gnorm.vmax))
